@@ -86,7 +86,7 @@ def collect(tier, sd, rng, greedy=False, extra=()):
             g.arith_snippet(out)
         blocks.append(" ".join(out))
     osets = [["-greedy"], ["-greedy", "-storage"], ["-greedy", "-partition"], ["-greedy", "-no-simplification"]]
-    corpus = gen.mem_pair_corpus() + gen.consuming_rule_corpus() + gen.store_of_load_corpus() + gen.hash_pair_corpus() + gen.dead_load_corpus() + gen.overwritten_store_corpus() + gen.mapping_corpus()
+    corpus = gen.mem_pair_corpus() + gen.consuming_rule_corpus() + gen.store_of_load_corpus() + gen.hash_pair_corpus() + gen.dead_load_corpus() + gen.overwritten_store_corpus() + gen.mapping_corpus() + gen.folded_key_corpus()
     tasks = [{"kind": "spec", "text": b, "opts": ["-greedy"], "greedy": greedy} for b in list(corpus) + list(extra)] + [{"kind": "spec", "text": b, "opts": osets[i % len(osets)] if tier == "quick" else o, "greedy": greedy}
              for i, b in enumerate(blocks) for o in ([None] if tier == "quick" else osets)]
     groups = {}
